@@ -592,7 +592,7 @@ fn props_connect(rng: &mut Rng) -> Vec<Property> {
         v.push(mqtt::packet::TopicAliasMaximum::new(*rng.pick(&[0u16, 1, 2, 3])).unwrap().into());
     }
     if rng.chance(1, 3) {
-        v.push(mqtt::packet::MaximumPacketSize::new(*rng.pick(&[1u32, 5, 12, 20, 30, 45, 200])).unwrap().into());
+        v.push(mqtt::packet::MaximumPacketSize::new(*rng.pick(&[1u32, 2, 3, 4, 5, 12, 20, 30, 45, 200])).unwrap().into());
     }
     if rng.chance(1, 2) {
         v.push(mqtt::packet::SessionExpiryInterval::new(*rng.pick(&[0u32, 100, 0xFFFF_FFFF])).unwrap().into());
